@@ -141,6 +141,8 @@ class World:
         self.forks = []           # (pid, master?, mono)
         self.reaps = []           # (pid, status) in waitpid order
         self.reaps_ctx = []       # reexec_pid of the master at each of them
+        self.fork_at = {}         # pid -> number of labels executed when it was forked
+        self.reap_at = {}         # pid -> number of labels executed when it was reaped
         self.fs_unlinked = []     # paths unlinked through sock.close_sockets
         self.closed_listeners = []
         self.created_sockets = [] # (fds argument) per create_sockets call
@@ -163,8 +165,11 @@ class World:
         self.events = []          # oracle-side log: (kind, ...)
         self.nlabels = 0
         self.in_script = True
+        self.probe = None         # optional callback(world, yield_code) for property oracles
+        self.tmp_now = None       # clock value seen by WorkerTmp.notify() during an "Nt" label
         self.script_labels = None  # number of executed labels that came from the script (the rest is the tail)
         self.stopping_at = None   # number of labels executed when stop() was first entered
+        self.final_stop_at = None # ... when the stop() called from halt() was entered
 
     # ---- kernel ------------------------------------------------------------------------------------
     def kid(self, pid):
@@ -181,6 +186,7 @@ class World:
         self.next_pid += 1
         self.kids.append({"pid": pid, "st": "R", "status": 0, "sigs": [], "master": master})
         self.forks.append((pid, master, self.mono))
+        self.fork_at[pid] = self.nlabels
         return pid
 
     def k_kill(self, pid, sig):
@@ -206,6 +212,7 @@ class World:
                 self.kids.remove(k)
                 self.reaps.append((k["pid"], k["status"]))
                 self.reaps_ctx.append(int(self.arbiter.reexec_pid))
+                self.reap_at[k["pid"]] = self.nlabels
                 return k["pid"], k["status"]
         return 0, 0
 
@@ -216,6 +223,8 @@ class World:
         self.cur = (code, int(a), int(b))
         if self.pending_obs:
             self.snap()
+        if self.probe is not None:
+            self.probe(self, code)
         while True:
             if self.script:
                 lab = self.script.pop(0)
@@ -291,6 +300,20 @@ class World:
                         self.events.append(("notify", lab[1], self.mono))
                     except ValueError:
                         pass      # the master closed its copy: the file is no longer looked at
+        elif kind == "Nt":
+            # the child pid notified at virtual time lab[2] (<= now): its own clock read happened then
+            k = self.kid(lab[1])
+            if k is not None and k["st"] == "R" and not k["master"] and MONO0 + int(lab[2]) <= self.mono:
+                w = self.objs.get(lab[1])
+                if w is not None:
+                    self.tmp_now = MONO0 + int(lab[2])
+                    try:
+                        w.tmp.notify()
+                        self.events.append(("notify", lab[1], self.tmp_now))
+                    except ValueError:
+                        pass
+                    finally:
+                        self.tmp_now = None
         elif kind == "E":
             self.disk["workers"] = int(lab[1])
             self.disk["timeout"] = int(lab[2])
@@ -410,6 +433,8 @@ class World:
 
         class TmpTimeProxy(Passthrough):
             def monotonic(self):
+                if world.tmp_now is not None:
+                    return world.tmp_now / float(TICK)
                 return world.mono / float(TICK)
 
             def time(self):
@@ -452,6 +477,13 @@ class World:
                 gsock.os = SockOs(os)
                 if world.stopping_at is None:
                     world.stopping_at = world.nlabels
+                if world.final_stop_at is None:
+                    f = sys._getframe(1)
+                    while f is not None:
+                        if f.f_code.co_name == "halt":
+                            world.final_stop_at = world.nlabels      # the stop() called by halt(): exceptions raised in it leave run()
+                            break
+                        f = f.f_back
                 try:
                     world.closed_listeners.append(([l.name for l in listeners], bool(unlink)))
                     return gsock.close_sockets(listeners, unlink)
@@ -563,6 +595,8 @@ def coq_label(lab):
         return "Tick %d" % lab[1]
     if k == "N":
         return "Notify %d" % lab[1]
+    if k == "Nt":
+        return "NotifyAt %d %d" % (lab[1], lab[2])
     if k == "E":
         return "EditCfg %d %d" % (lab[1], lab[2])
     if k == "P":
@@ -643,3 +677,11 @@ def tail_expr(cfg, w):
     if rest:
         e = "(%s ++ %s)" % (e, labels_expr(rest))
     return e
+
+
+def reaped_before_registration(w, pid):
+    """D17 signature: the SIGCHLD handler reaped `pid` before the master step that registers it ran, i.e. no
+    master label was executed between the fork and the reap."""
+    if pid not in w.fork_at or pid not in w.reap_at:
+        return False
+    return not any(l[0] == "M" for l in w.resolved[w.fork_at[pid]:w.reap_at[pid]])
